@@ -7,6 +7,7 @@
 package c02
 
 import (
+	extv1 "k8s.io/apiextensions-apiserver/pkg/apis/apiextensions/v1"
 	"context"
 	"fmt"
 	"strings"
@@ -404,6 +405,11 @@ func crdSite(claim bool) site {
 		t.TypeMeta = metav1.TypeMeta{APIVersion: "apiextensions.k8s.io/v1", Kind: "CustomResourceDefinition"}
 		t.OwnerReferences = nil
 		t.Spec.Names.ShortNames = []string{"theirs"}
+		// The API server establishes a CRD soon after it is created; the
+		// XRD controllers only go on (start the controller, record it in the
+		// XRD's status) once it is.
+		established := extv1.CustomResourceDefinitionCondition{Type: extv1.Established, Status: extv1.ConditionTrue, Reason: "InitialNamesAccepted"}
+		t.Status.Conditions = []extv1.CustomResourceDefinitionCondition{established}
 		if setPre(t, pre, metav1.OwnerReference{APIVersion: v1.SchemeGroupVersion.String(), Kind: v1.CompositeResourceDefinitionKind, Name: xrd.GetName(), UID: xrd.GetUID()}) {
 			s.Seed(t)
 		}
@@ -416,8 +422,19 @@ func crdSite(claim bool) site {
 		} else {
 			rec = definition.NewReconciler(ca, definition.WithRecorder(w.rec()), definition.WithControllerEngine(&engine{}), definition.WithOptions(o))
 		}
-		round := func() []error { return []error{xrh.Reconcile(rec, types.NamespacedName{Name: xrd.GetName()}).Err} }
-		return simkube.ObjKey{Group: "apiextensions.k8s.io", Kind: "CustomResourceDefinition", Name: t.GetName()}, round, func() bool { return false }
+		key := simkube.ObjKey{Group: "apiextensions.k8s.io", Kind: "CustomResourceDefinition", Name: t.GetName()}
+		round := func() []error {
+			errs := []error{xrh.Reconcile(rec, types.NamespacedName{Name: xrd.GetName()}).Err}
+			if u := s.Peek(key); u != nil {
+				if conds, _, _ := unstructured.NestedSlice(u.Object, "status", "conditions"); len(conds) == 0 {
+					s.Mutate(key, func(u *unstructured.Unstructured) {
+						_ = unstructured.SetNestedSlice(u.Object, []any{map[string]any{"type": "Established", "status": "True", "reason": "InitialNamesAccepted"}}, "status", "conditions")
+					})
+				}
+			}
+			return errs
+		}
+		return key, round, func() bool { return false }
 	}}
 }
 
@@ -601,6 +618,10 @@ func body(r *explore.Run, rep *report.R, st site) {
 	var errs []string
 	requeued := false
 	stale := pre == preStaleOwned || pre == preStaleUncontrolled
+	// The owner's reconciler may have run to completion before (recording in
+	// the owner's status, its caches or its memory that the target is its
+	// own) when the target changes hands between two reconciles.
+	handedOver := pre == preOwned && adoptAt == 0 && r.Bool("target-changes-hands-after-the-owner-completed-reconciles")
 	run := func(n int) {
 		for i := 0; i < n; i++ {
 			for _, e := range round() {
@@ -610,6 +631,26 @@ func body(r *explore.Run, rep *report.R, st site) {
 					errs = append(errs, e.Error())
 				}
 			}
+		}
+	}
+	if handedOver {
+		run(2)
+		if w.s.Peek(target) == nil {
+			handedOver = false // (a garbage-collection site: nothing left to hand over)
+		} else {
+			w.s.Mutate(target, func(u *unstructured.Unstructured) {
+				u.SetOwnerReferences([]metav1.OwnerReference{foreign})
+				l := u.GetLabels()
+				if l == nil {
+					l = map[string]string{}
+				}
+				l["example.org/managed-by"] = "somebody-else"
+				u.SetLabels(l)
+			})
+			before = w.s.Peek(target)
+			logStart = len(w.s.Log)
+			errs, requeued, w.warnings = nil, false, nil
+			r.Logf("  after two completed rounds a foreign controller takes over %s", target)
 		}
 	}
 	run(rounds)
@@ -647,6 +688,8 @@ func body(r *explore.Run, rep *report.R, st site) {
 		check("", true)
 	case pre == preForeignCacheMiss:
 		check("/missing-from-cache", true)
+	case handedOver:
+		check("/handed-over-after-owner-completed", true)
 	case adopted:
 		// The write that was in flight when the object was adopted must not
 		// land; later rounds see the plain foreign placement.
@@ -679,15 +722,15 @@ func body(r *explore.Run, rep *report.R, st site) {
 	// Vacuity guard: when the target is absent or already ours the site does
 	// write / keep it (so the foreign case above is not passing because the
 	// site never runs).
-	if !adopted && (pre == preOwned || (pre == preAbsent && !st.generatedName)) && !strings.Contains(st.name, "garbage-collection") {
+	if !adopted && !handedOver && (pre == preOwned || (pre == preAbsent && !st.generatedName)) && !strings.Contains(st.name, "garbage-collection") {
 		if after == nil {
 			r.Failf("harness/site-not-exercised/"+st.name, "with the target %s the %s site did not create / keep %s (errs %v, warnings %v)", preNames[pre], st.name, target, errs, w.warnings)
 		}
 	}
-	if !adopted && strings.Contains(st.name, "garbage-collection") && (pre == preOwned || pre == preUncontrolled) && after != nil && after.GetDeletionTimestamp() == nil {
+	if !adopted && !handedOver && strings.Contains(st.name, "garbage-collection") && (pre == preOwned || pre == preUncontrolled) && after != nil && after.GetDeletionTimestamp() == nil {
 		r.Failf("harness/site-not-exercised/"+st.name, "the %s site did not garbage collect its own / an uncontrolled object (errs %v)", st.name, errs)
 	}
-	rep.Eval(st.name, report.Hash(st.name, pre, after != nil, len(errs) > 0, len(w.warnings) > 0), report.Hash(st.name, pre, rounds, adoptAt, namesake))
+	rep.Eval(st.name, report.Hash(st.name, pre, after != nil, len(errs) > 0, len(w.warnings) > 0), report.Hash(st.name, pre, rounds, adoptAt, namesake, handedOver))
 	if rep.WantSample() && (pre == preForeign || pre >= preStaleOwned) {
 		rep.Sample(map[string]any{"site": st.name, "pre_state": preNames[pre], "rounds": rounds, "errors": errs, "warnings": w.warnings, "writes_on_target": writes})
 	}
